@@ -90,6 +90,8 @@ def validate(ck: core.Check, module: str, cfg: str, obs: List[Dict[str, Any]], w
     n = len(obs)
     if n == 0:
         return [], []
+    for k, o in enumerate(obs):
+        o["idx"] = k
     nslices = max(1, min(nslices, n))
     size = (n + nslices - 1) // nslices
     slices = [(k, obs[k * size : (k + 1) * size]) for k in range(nslices) if obs[k * size : (k + 1) * size]]
@@ -112,12 +114,12 @@ def validate(ck: core.Check, module: str, cfg: str, obs: List[Dict[str, Any]], w
         if res.distinct != len(part):
             raise core.MachineryFailure("%s: TLC saw %d of %d records" % (what, res.distinct, len(part)))
         for v in res.violations:
-            i = res.var_of(v, "i")
-            if i is None:
+            m = re.search(r"\bidx \|-> (\d+)", v["state"])
+            if m is None:
                 raise core.MachineryFailure("%s: cannot find the record index in %r" % (what, v["state"][:200]))
-            violations.append((v["invariant"], k * size + int(i) - 1))
+            violations.append((v["invariant"], int(m.group(1))))
         for line in res.printed:
             m = re.search(r'"@@PRINT@@ (\w+)", (\d+), (.*)>>', line)
             if m:
-                printed.append("%s %d %s" % (m.group(1), k * size + int(m.group(2)) - 1, m.group(3)))
+                printed.append("%s %d %s" % (m.group(1), int(m.group(2)), m.group(3)))
     return violations, printed
